@@ -41,6 +41,27 @@ class PageFeatureProcessor:
         if page_df_height == 0:
             return page_attrs
 
+        # Attributes given per row refer to rows of the whole table: keep, for this
+        # page, the rows of the data rows it shows (row i of the page is table row
+        # row_start + i), so formatting does not depend on where page breaks fall.
+        row_start = getattr(page, "row_start", 0) or 0
+        if row_start:
+            for attr_name in type(page_attrs).model_fields:
+                value = getattr(page_attrs, attr_name, None)
+                if (
+                    isinstance(value, list)
+                    and len(value) > 1
+                    and isinstance(value[0], list)
+                ):
+                    setattr(
+                        page_attrs,
+                        attr_name,
+                        [
+                            value[(row_start + i) % len(value)]
+                            for i in range(page_df_height)
+                        ],
+                    )
+
         # Clear border_first and border_last from being broadcast to all rows
         if hasattr(page_attrs, "border_first") and page_attrs.border_first:
             page_attrs.border_first = None
